@@ -339,6 +339,118 @@ func C15(r *eng.Run) {
 	})
 	r.Phase("unary operations", t0, nil)
 
+	// word-structured finite operands (coefficient a multiple of 2^64, 2^112, 2^113 form-2 seam, Cmax) against specials and zeros:
+	// zero tests on multi-word coefficients must look at every word
+	t0 = time.Now()
+	var bigReps []classOperand
+	for _, c := range []*big.Int{pow2(64), pow2(65), pow2(112), new(big.Int).Mul(big.NewInt(10), pow2(64)), pow2(113), new(big.Int).Mul(big.NewInt(3), pow2(64)), ref.Cmax, new(big.Int).Lsh(big.NewInt(0xffffffff), 64)} {
+		for _, q := range []int{0, -20, 5, ref.MinQ, ref.MaxQ} {
+			for s := 0; s < 2; s++ {
+				f, _ := ref.Val{Class: ref.Fin, Neg: s == 1, C: c, Q: clampInt(q, -300, 250)}.Rat().Float64()
+				bigReps = append(bigReps, classOperand{MkBits(s == 1, c, q), f, "wide-finite"})
+			}
+		}
+	}
+	var specials []classOperand
+	for _, o := range ops {
+		if v := ref.Decode(o.b); v.Class != ref.Fin || v.C.Sign() == 0 {
+			specials = append(specials, o)
+		}
+	}
+	r.Bounds["wide_finite_operands"] = len(bigReps)
+	r.Par(len(bigReps), func(w *eng.W, i int) {
+		x := bigReps[i]
+		xv := ref.Decode(x.b)
+		for _, y := range specials {
+			yv := ref.Decode(y.b)
+			for _, op := range bops {
+				if op.name == "Pow" {
+					continue // magnitudes differ between float64 and decimal; Pow's special table has its own exact phase below
+				}
+				for _, swap := range []bool{false, true} {
+					a, b, av, bv, af, bf := x, y, xv, yv, x.f, y.f
+					if swap {
+						a, b, av, bv, af, bf = y, x, yv, xv, y.f, x.f
+					}
+					w.Set2(op.label, "", a.b, b.b)
+					gb := B(op.lib(D(a.b), D(b.b)))
+					w.Eval()
+					gv := ref.Decode(gb)
+					want := op.shadow(af, bf)
+					if av.Class == ref.NaN || bv.Class == ref.NaN {
+						if !(av.Class == ref.NaN && gb == a.b || bv.Class == ref.NaN && gb == b.b) {
+							w.R.Fail(eng.Case{Op: op.label, Args: []string{a.b.Hex(), b.b.Hex()}, Got: gb.Hex(), Want: "the NaN operand propagated bit for bit"})
+						}
+						continue
+					}
+					wc := fclass(want)
+					if vclass(gv) != wc {
+						w.R.Fail(eng.Case{Op: op.label, Args: []string{a.b.Hex(), b.b.Hex()}, Got: gv.String(), Want: "class/sign " + wc, Note: fmt.Sprintf("x=%s y=%s", av, bv)})
+						continue
+					}
+					if gv.Class == ref.NaN {
+						wantP := op.name + "(" + payloadArg(av) + ", " + payloadArg(bv) + ")"
+						if gp := D(gb).Payload().String(); gp != wantP {
+							w.R.Fail(eng.Case{Op: op.label, Args: []string{a.b.Hex(), b.b.Hex()}, Got: "payload " + gp, Want: "payload " + wantP})
+						}
+					}
+				}
+			}
+		}
+		w.Cell("wide-finite-vs-special", true)
+	})
+	r.Phase("wide finite operands vs specials", t0, nil)
+
+	// Pow's special-case table decided exactly: base in {+-0, +-Inf}, exponent any finite value; the parity of huge
+	// integers (not representable in float64) decides the sign
+	t0 = time.Now()
+	var powYs []ref.Bits
+	for _, sY := range []string{"1", "2", "3", "4", "7", "10", "11", "0.5", "2.5", "1e20", "3e20", "18446744073709551616", "18446744073709551617", "18446744073709551615", "9999999999999999999999999999999999",
+		"12980742146337069071326240823050239", "12980742146337069071326240823050238", "1844674407370955161.7", "1e6111", "7e100", "1e-5", "123456789012345678901234567890123.5", "30", "3e1", "50e-1", "1000000000000000000001"} {
+		v := ref.MustLit(sY)
+		cs, qs := Cohort(v.C, v.Q)
+		for k := range cs {
+			if k == 0 || k == len(cs)-1 || k == len(cs)/2 {
+				powYs = append(powYs, MkBits(false, cs[k], qs[k]), MkBits(true, cs[k], qs[k]))
+			}
+		}
+	}
+	r.Bounds["pow_special_exponents"] = len(powYs)
+	r.Par(len(specials), func(w *eng.W, i int) {
+		xb := specials[i].b
+		xv := ref.Decode(xb)
+		if xv.Class == ref.NaN {
+			return
+		}
+		for _, yb := range powYs {
+			yv := ref.Decode(yb)
+			isInt, abs := isIntegerVal(yv)
+			odd := isInt && abs.Bit(0) == 1
+			neg := xv.Neg && odd
+			// y > 0: Inf -> Inf, 0 -> 0 ; y < 0: Inf -> 0, 0 -> Inf
+			toInf := (xv.Class == ref.Inf) != yv.Neg
+			wc := "0"
+			if toInf {
+				wc = "Inf"
+			}
+			if neg {
+				wc = "-" + wc
+			} else {
+				wc = "+" + wc
+			}
+			for m := 0; m < 6; m++ {
+				w.Set2("PowWithMode", ref.ModeNames[m], xb, yb)
+				gv := V(D(xb).PowWithMode(D(yb), LibModes[m]))
+				w.Eval()
+				if vclass(gv) != wc {
+					w.R.Fail(eng.Case{Op: "PowWithMode", Args: []string{xb.Hex(), yb.Hex()}, Mode: MName(m), Got: gv.String(), Want: wc + " (math.Pow special-case table with exact parity)", Note: fmt.Sprintf("x=%s y=%s", xv, yv)})
+				}
+			}
+		}
+		w.Cell("pow-special-exact-parity", true)
+	})
+	r.Phase("Pow special table with exact parity", t0, nil)
+
 	// predicates over all top-17-bit patterns
 	t0 = time.Now()
 	shapes := lowShapes()
